@@ -389,6 +389,13 @@ def _resolve_call(prog, fi, call, local_classes):
                 if name in c.methods:
                     return [c.methods[name]], "super"
             return [], "external"
+        if isinstance(base, ast.Call) and isinstance(base.func, (ast.Name, ast.Attribute)):
+            # method of an object constructed on the spot:  Cls(args).method(...)
+            k = prog.resolve_class(mod, base.func)
+            if k is not None:
+                t = _dispatch(prog, k, name)
+                if t:
+                    return t, "receiver"
         recv = dotted(base)
         if recv in ("self", "cls") and fi.cls is not None:
             t = _dispatch(prog, fi.cls, name)
